@@ -158,7 +158,7 @@ def run_sharded(tool, mode, scripts, timeout=1200, shards=NPROC):
             if k is None:
                 break
             if rc != 3:
-                res[todo[k][0]] = ["HANG" if rc == -9 else "CRASH rc=%d %s" % (rc, err.strip()[-200:])]
+                res[todo[k][0]] = ["HANG" if rc == -9 else "CRASH rc=%d %s" % (rc, " ".join(err.strip().split())[-160:])]
                 todo = todo[k + 1:]
             else:
                 todo = todo[k:]
